@@ -62,7 +62,9 @@ func (b *worldBuilder) conflicts(r RR) bool {
 		}
 		// two SOAs visible to one client: which one is served depends on value
 		// order under a key, which no property fixes - never generated
-		if x.Type == 6 && r.Type == 6 {
+		if x.Type == 6 && r.Type == 6 && (!b.o.Wide || x.Loc == r.Loc) {
+			// (wide worlds may pair a location-tagged SOA with an untagged one: they live
+			// under different keys, the tagged one is read first on every backend)
 			return true
 		}
 		if b.o.Wide {
@@ -437,10 +439,26 @@ func (b *worldBuilder) records() {
 		k := rapid.IntRange(0, 3).Draw(b.t, "nwide")
 		for i := 0; i < k; i++ {
 			owner := b.owner("wown")
-			switch rapid.IntRange(1, 2).Draw(b.t, "widekind") {
+			switch rapid.IntRange(1, 3).Draw(b.t, "widekind") {
 			case 1: // duplicate of an existing line
 				if len(b.w.Lines) > 0 {
 					b.add(b.w.Lines[rapid.IntRange(0, len(b.w.Lines)-1).Draw(b.t, "dup")])
+				}
+			case 3: // a location-specific SOA next to the ordinary one
+				// only where every client sees an NS (an untagged one): an SOA that some
+				// client sees without any NS is not a well-formed zone
+				var ok []string
+				for _, a := range b.apex {
+					for _, r := range b.reg[ownerKey{CanonName(a), false}] {
+						if r.Type == 2 && r.Loc == "" {
+							ok = append(ok, a)
+							break
+						}
+					}
+				}
+				if len(ok) > 0 {
+					a := rapid.SampledFrom(ok).Draw(b.t, "soa2-apex")
+					b.add(Line{K: 'Z', Owner: a, X: "ns9." + a, Adm: "loc." + a, TTL: -1, Loc: b.loc("soa2-loc", 100), N: none})
 				}
 			default: // CNAME next to data
 				b.add(Line{K: 'C', Owner: owner, X: b.target("wcname"), TTL: -1, Loc: b.loc("wloc2", 30), N: none})
@@ -486,7 +504,7 @@ func (b *worldBuilder) maps() {
 				b.w.Lines = append(b.w.Lines, Line{K: kind, Owner: "", Wild: true, MapID: id, TTL: -1})
 				continue
 			}
-			b.w.Lines = append(b.w.Lines, Line{K: kind, Owner: name, Wild: wild, MapID: id, TTL: -1})
+			b.w.Lines = append(b.w.Lines, Line{K: kind, Owner: mixCase(b.t, name, "mapown"), Wild: wild, MapID: id, TTL: -1})
 		}
 	}
 	declare('M')
@@ -633,6 +651,9 @@ func GenQuery(t *rapid.T, w *World, names []string) Query {
 		if r.Type == 2 && rapid.Bool().Draw(t, "qds") {
 			typ = 43
 			n = r.Owner
+			if rapid.IntRange(0, 2).Draw(t, "qds-below") == 0 {
+				n = rapid.SampledFrom(Labels).Draw(t, "qds-label") + "." + n // DS for a name below the NS owner
+			}
 		}
 	default:
 		n = rapid.SampledFrom(names).Draw(t, "qname")
